@@ -66,6 +66,8 @@ def on_ready_cases() -> Any:
         # to the constructor, a mock): `source.pre_send(task)` reaches them in every case
         "bind": st.sampled_from(["class", "class", "inherited", "instance"]),
         "surrogate": st.sampled_from([False, False, True]),
+        # the schedule's task is known to the scheduler's broker and was DECLARED with labels of its own: the message still carries the schedule's
+        "registered": st.sampled_from([False, False, True]),
     })
 
 
@@ -170,6 +172,12 @@ def run_on_ready(c: Dict[str, Any]) -> Outcome:
             b.serializer = PickleSerializer()
         if c["codec"] == "jsonfmt":
             b.formatter = JSONFormatter()
+        if c.get("registered"):
+            def some_task(*a: Any, **k: Any) -> None:
+                return None
+
+            some_task.__module__ = __name__
+            b.register_task(some_task, task_name="some.task", retry_on_error=True, max_retries=3, queue="declared-queue")
         src = Src()
         if bind == "instance":
             import types
